@@ -542,7 +542,25 @@ func runC09(c *eng.Ctx, thorough bool) {
 			c.Unresolved("raft.fsmEntryTxErrorKey")
 		}
 		nv := 0
-		for _, f := range append([]*ssa.Function{apply}, eng.Closures(apply)...) {
+		// ApplyBatch, its function literals, and the functions of the package those call (the construction
+		// of the sentinel extracted into a helper is held to the same conditions there)
+		verdictFns := append([]*ssa.Function{apply}, eng.Closures(apply)...)
+		for _, f := range append([]*ssa.Function{}, verdictFns...) {
+			for _, cl := range eng.Calls(f, `^raft\.`) {
+				g := cl.Common().StaticCallee()
+				if g == nil || g.Blocks == nil || !eng.InPkg(g, "raft") {
+					continue
+				}
+				dup := false
+				for _, h := range verdictFns {
+					dup = dup || h == g
+				}
+				if !dup {
+					verdictFns = append(verdictFns, g)
+				}
+			}
+		}
+		for _, f := range verdictFns {
 			for _, st := range eng.Instrs(f, func(in ssa.Instruction) bool {
 				s, ok := in.(*ssa.Store)
 				if !ok {
@@ -558,7 +576,7 @@ func runC09(c *eng.Ctx, thorough bool) {
 				nv++
 				c.Clause("R2", "C09.5")
 				c.Cut(f, "conflict verdict entry", []ssa.Instruction{st}, eng.G(f, `^errors\.Is\(\)$`, true), nil)
-				c.Cut(f, "conflict verdict entry", []ssa.Instruction{st}, eng.G(f, `getInTx\(\)$`, true), nil)
+				c.Cut(f, "conflict verdict entry", []ssa.Instruction{st}, c09InTx(f), nil)
 				// what errors.Is compares with
 				c.Clause("R5", "C09.5")
 				for _, is := range eng.Calls(f, `^errors\.Is$`) {
@@ -797,6 +815,53 @@ func c09WriteCount(f *ssa.Function) int {
 		}
 	}
 	return n
+}
+
+// c09InTx: the edges of f on which the command is known to be a transaction:
+// the per-command state's inTx field tested true - read directly, or through a
+// function of the package that returns nothing but that field of its receiver.
+func c09InTx(f *ssa.Function) eng.Guard {
+	isField := func(v ssa.Value) bool {
+		ld, ok := v.(*ssa.UnOp)
+		if !ok || ld.Op != token.MUL {
+			return false
+		}
+		fa, ok := ld.X.(*ssa.FieldAddr)
+		if !ok {
+			return false
+		}
+		fv := eng.FieldVar(fa)
+		return fv != nil && fv.Name() == "inTx" && strings.HasSuffix(structTypeName(fa.X.Type()), "fsmTxnCommitIndexApplicationState")
+	}
+	g := eng.Guard{Desc: "[the per-command state's inTx]=true"}
+	for _, b := range f.Blocks {
+		ifi := eng.IfOf(b)
+		if ifi == nil {
+			continue
+		}
+		v := eng.Normalize(ifi.Cond).Val
+		ok := isField(v)
+		if cl, isCall := v.(*ssa.Call); isCall && !ok {
+			if callee := cl.Call.StaticCallee(); callee != nil && len(callee.Blocks) > 0 && eng.InPkg(callee, "raft") {
+				ok = true
+				n := 0
+				for _, r := range eng.Returns(callee) {
+					if r.Block().Comment == "recover" {
+						continue
+					}
+					n++
+					if len(r.Results) != 1 || !isField(r.Results[0]) {
+						ok = false
+					}
+				}
+				ok = ok && n > 0
+			}
+		}
+		if ok {
+			g.Edges = append(g.Edges, eng.BoolEdges(v, true)...)
+		}
+	}
+	return g
 }
 
 func c09ObserverCall(cc *ssa.CallCommon) bool {
